@@ -288,3 +288,13 @@ Definition prop_decision_ok (p : policy) (ri : request_info) (d : decision) : bo
    retries is within the policy's fixed number. *)
 Definition prop_history_ok (p : policy) (ds : list decision) : bool :=
   (List.length (filter is_same_target ds) <=? same_target_budget p)%nat.
+
+(* ---- decidable equalities (used by the acceptors and property predicates of the ties) ------- *)
+Definition write_type_eq_dec (a b : write_type) : {a = b} + {a <> b}.
+Proof. decide equality. Defined.
+Definition db_error_eq_dec (a b : db_error) : {a = b} + {a <> b}.
+Proof. decide equality; auto using Z.eq_dec, Bool.bool_dec, write_type_eq_dec. Defined.
+Definition attempt_error_eq_dec (a b : attempt_error) : {a = b} + {a <> b}.
+Proof. decide equality; apply db_error_eq_dec. Defined.
+Definition consistency_eq_dec (a b : consistency) : {a = b} + {a <> b}.
+Proof. decide equality. Defined.
